@@ -29,6 +29,8 @@ func init() { Registry["C20"] = C20 }
 
 type fsCase struct {
 	Spill    bool   `json:"spill"`
+	Entry    string `json:"entry"`
+	Limit    string `json:"limit"`
 	NFiles   int    `json:"nfiles"`
 	Keep     string `json:"keep"`
 	Relevant bool   `json:"relevant"`
@@ -107,15 +109,19 @@ func fsRun(c fsCase, base string, idx int) (o fsObs) {
 	if c.Relevant {
 		logAct = "log"
 	}
+	limit := "1048576"
+	if c.Limit == "reached" {
+		limit = "60\nSecRequestBodyLimitAction ProcessPartial"
+	}
 	text := fmt.Sprintf(`SecRuleEngine On
 SecRequestBodyAccess On
-SecRequestBodyLimit 1048576
+SecRequestBodyLimit %s
 SecRequestBodyInMemoryLimit %d
 SecUploadDir %s
 SecUploadKeepFiles %s
 SecRule ARGS_POST:field1 "@streq value1" "id:10,phase:2,pass,%s"
 SecAction "id:20,phase:5,pass,nolog"
-`, mem, up, c.Keep, logAct)
+`, limit, mem, up, c.Keep, logAct)
 	var logbuf bytes.Buffer
 	logger := debuglog.Default().WithOutput(&logbuf).WithLevel(debuglog.LevelError)
 	// SecTmpDir is not implemented by the library: the spill directory is os.TempDir() at NewWAF time
@@ -161,10 +167,20 @@ SecAction "id:20,phase:5,pass,nolog"
 		tx.AddRequestHeader("Content-Type", ct)
 		tx.ProcessRequestHeaders()
 		// step 1
-		if it, _, err := tx.WriteRequestBody([]byte(body)); err != nil {
-			surf("WriteRequestBody error: " + err.Error())
+		var it *types.Interruption
+		var err error
+		switch c.Entry {
+		case "known":
+			it, _, err = tx.ReadRequestBodyFrom(strings.NewReader(body))
+		case "unknown":
+			it, _, err = tx.ReadRequestBodyFrom(struct{ io.Reader }{strings.NewReader(body)})
+		default:
+			it, _, err = tx.WriteRequestBody([]byte(body))
+		}
+		if err != nil {
+			surf("request body write (" + c.Entry + ") error: " + err.Error())
 		} else if it != nil {
-			surf("WriteRequestBody interruption")
+			surf("request body write interruption")
 		}
 		if c.Steps >= 2 {
 			if it, err := tx.ProcessRequestBody(); err != nil {
